@@ -296,7 +296,11 @@ class Convention(abc.ABC, Generic[GridKind, Index]):
         ----------
         .. [1] `CF Conventions v1.10, 4.4 Time Coordinate <https://cfconventions.org/Data/cf-conventions/cf-conventions-1.10/cf-conventions.html#time-coordinate>`_
         """
+        bounds_names = utils.bounds_variable_names(self.dataset)
         for name in self.dataset.variables.keys():
+            if name in bounds_names:
+                # The bounds of a time coordinate are decoded like the coordinate
+                continue
             variable = self.dataset[name]
             # xarray will automatically decode all time variables
             # and move the 'units' attribute over to encoding to store this change.
